@@ -5,6 +5,9 @@ For every ACL text of the grammar (mc/aclgen.py, inside the unambiguous domain o
 negated rows):  apply_acl(t,A) == ref_filter(t,A), order-preserving subtree, idempotent, fatal mode raises AclError
 naming the first uncovered row iff the reference finds one, filter_config agrees; and for pairs (A,B):
 apply_acl(t,A) U apply_acl(t,B) is a subtree of apply_acl(t, A+B) with A+B compiled from the name-tagged concatenation.
+Diff texts (kind "fdiff"): the library entry point annet.annlib.filter_acl.filter_diff on signed diff texts ('+', '-', ' '
+rows, as formatter.diff prints them) of <= 3 rows: the lines kept are those of the rows the reference filter keeps, each
+with its sign - a removed row governed only by cant_delete rules comes back unsigned (it will not be removed).
 Two-step histories (kind "seq"): for the ACLs in which several rules match one row, every ordered pair of forests
 (f1 <= 2 nodes [thorough: 3], f2 <= 3 nodes) is filtered with ONE freshly compiled ACL object, f1 first; the result for
 f2 must still be the reference's (filtering must not write into the compiled rules).
@@ -49,6 +52,10 @@ def blocks(tier, seed):
         out.append({"kind": "pairs", "i": i, "with": core})
     for i in range(len(aclgen.merge_pairs())):
         out.append({"kind": "mpair", "i": i})
+    # the filter_diff entry point on signed diff texts
+    for i, (name, _) in enumerate(A):
+        if not name.startswith(("L2", "B2")) and (tier == "thorough" or i % 2 == 0):
+            out.append({"kind": "fdiff", "i": i})
     # two-step histories on one compiled ACL object, for the ACLs in which several rules match one row (their children
     # are merged per match: the merge must not leak into the compiled rules)
     for i, (name, _) in enumerate(A):
@@ -149,6 +156,77 @@ def run_single(block, ctx):
         ctx.notes.append("filter_config not importable")
     if len(ctx.samples) < 1:
         ctx.sample({"acl": text, "rows": rows, "negated_family": block["neg"]})
+
+
+def signed_forests(rows, n):
+    """forests <= n nodes (depth <= 2) whose nodes carry a sign: children of an added (removed) row are added (removed)"""
+    import itertools as it
+    for forest in mcenum.forests(rows, n, 2):
+        if not forest:
+            continue
+        slots = []
+        for row, ch in forest:
+            slots.append(1 + len(ch))
+        tops = list(it.product("+- ", repeat=len(forest)))
+        for signs in tops:
+            kid_opts = [list(it.product("+- ", repeat=len(ch))) if sg == " " else [tuple(sg for _ in ch)] for (row, ch), sg in zip(forest, signs)]
+            for kids in it.product(*kid_opts):
+                yield [(sg, row, [(ks, cr) for ks, (cr, _) in zip(k, ch)]) for sg, (row, ch), k in zip(signs, forest, kids)]
+
+
+def judge_fdiff(rules, text, compiled, level, sforest, report):
+    from annet.annlib import filter_acl
+    fmt = env.formatter(VENDOR)
+    lines = []
+    for sg, row, kids in sforest:
+        lines.append("%s %s" % (sg, row))
+        for ks, cr in kids:
+            lines.append("%s   %s" % (ks, cr))
+    src = "\n".join(lines) + "\n"
+    case = {"kind": "fdiff", "acl": [r.to_json() for r in rules], "diff_text": src}
+    try:
+        out = filter_acl.filter_diff(compiled, fmt, src)
+    except Exception as e:  # noqa
+        report({"kind": "filter_diff-exception", "exc": type(e).__name__, "acl": text}, case, repr(e)[:300])
+        return None
+    got = []
+    for ln in out.split("\n"):
+        if not ln.strip():
+            continue
+        rest = ln[1:]
+        got.append((ln[0], (len(rest) - len(rest.lstrip())) // 2, rest.strip()))
+    exp = []
+    for sg, row, kids in sforest:
+        g = refacl.govern(level, row, PREFIX)
+        if g is None:
+            continue
+        rule, is_rev, sub = g
+        exp.append((" " if (sg == "-" and not is_rev and all(rule.cds)) else sg, 0, row))
+        for ks, cr in kids:
+            gk = refacl.govern(sub, cr, PREFIX)
+            if gk is None:
+                continue
+            exp.append((" " if (ks == "-" and not gk[1] and all(gk[0].cds)) else ks, 1, cr))
+    if got != exp:
+        report({"kind": "filter_diff-differs", "acl": text}, case, "filter_diff gives %r, reference %r (text %r -> %r)" % (got, exp, src, out))
+    return got
+
+
+def run_fdiff(block, ctx):
+    name, fac = aclgen.acls(ctx.tier)[block["i"]]
+    rules = fac()
+    text = refacl.text(rules)
+    compiled = compile_text(text)
+    level = refacl.top(refacl.merge([("g", rules)]))
+    rows = [r for r in aclgen.row_alphabet(rules) if not r.startswith(PREFIX + " ")][:4]
+    for sf in signed_forests(rows, 3):
+        if ctx.expired():
+            return
+        got = judge_fdiff(rules, text, compiled, level, sf, ctx.violation)
+        ctx.evals += 1
+        ctx.states += 1
+        ctx.nontrivial += int(bool(got) and len(got) < sum(1 + len(k) for _, _, k in sf))
+        ctx.outcomes["fdiff"] += 1
 
 
 def judge_seq(rules, text, level, history, forest, report):
@@ -318,6 +396,8 @@ def run_block(block, ctx):
         run_mpair(block, ctx)
     elif block["kind"] == "seq":
         run_seq(block, ctx)
+    elif block["kind"] == "fdiff":
+        run_fdiff(block, ctx)
     else:
         run_pairs(block, ctx)
 
@@ -336,6 +416,19 @@ def replay(case):
         exp = refacl.ref_filter(refacl.top(refacl.merge([("ga", ra), ("gb", rb_)])), case["forest"], PREFIX)
         if got != exp:
             rep({"kind": "merged-filter-differs", "pair": name}, case, "apply_acl=%r reference=%r" % (got, exp))
+        return out
+    if case["kind"] == "fdiff":
+        rules = [refacl.ARule.from_json(d) for d in case["acl"]]
+        text = refacl.text(rules)
+        sf = []
+        for ln in case["diff_text"].split("\n"):
+            if not ln.strip():
+                continue
+            if ln[1:].startswith("   "):
+                sf[-1][2].append((ln[0], ln[1:].strip()))
+            else:
+                sf.append((ln[0], ln[1:].strip(), []))
+        judge_fdiff(rules, text, compile_text(text), refacl.top(refacl.merge([("g", rules)])), sf, rep)
         return out
     if case["kind"] == "seq":
         rules = [refacl.ARule.from_json(d) for d in case["acl"]]
